@@ -23,7 +23,10 @@ def gen_tables(rng):
     nl = rng.choice([0, 1, 3, 8, 30, 1500, 2600])
     nr = rng.choice([0, 1, 3, 8, 30, 200]) if nl > 100 else rng.choice([0, 1, 3, 8, 30, 1500])
     L, R = rows(nl, dom), rows(nr, dom)
-    stmts = ["create table l(k int, k2 bigint, v int)", "create table r(k int, k2 bigint, w int)"]
+    # the second key column of r is usually a BIGINT (INT vs BIGINT keys); sometimes a type `=` compares numerically with an
+    # integer while a hash table sees different values (DOUBLE, DECIMAL) or a narrower integer
+    k2r = rng.choice(["bigint"] * 5 + ["double", "decimal(10,2)", "smallint"])
+    stmts = ["create table l(k int, k2 bigint, v int)", f"create table r(k int, k2 {k2r}, w int)"]
     for name, data in (("l", L), ("r", R)):
         i = 0
         while i < len(data):
@@ -32,6 +35,19 @@ def gen_tables(rng):
             stmts.append(f"insert into {name} values " + ", ".join("(" + ", ".join(lit(v) for v in row) + ")" for row in part))
             i += n
     return L, R, stmts
+
+
+def numify(rows):
+    """DOUBLE / DECIMAL cells that hold whole numbers compare as the integers the reference holds."""
+    def cell(c):
+        if isinstance(c, str) and c[:2] in ("f:", "d:"):
+            try:
+                x = float(c[2:])
+                return int(x) if x == int(x) else c
+            except ValueError:
+                return c
+        return c
+    return [tuple(cell(c) for c in row) for row in rows]
 
 
 def ref_join(L, R, jt, lk, rk, residual):
@@ -157,7 +173,7 @@ def run_case(args):
                     pan = panic_site((v.get("panics"))[-1]) if v.get("panics") else ""
                     res["violations"].append(dict(signature=f"{kind}:{imp}-fails:{pan or v.get('err', '')[:30]}", what=f"{label}: {imp} failed: {v.get('err')} {v.get('panics')} (|l|={len(L)}, |r|={len(R)})"))
                     continue
-                got[imp] = norm_rows(v["rows"])
+                got[imp] = numify(norm_rows(v["rows"]))
             if ordered is not None:
                 a, b = got.get("limit_order"), got.get("topn")
                 if a is not None and b is not None:
